@@ -92,6 +92,7 @@ type wdWorld struct {
 	paid     map[uint64]int
 	refunded map[uint64]int
 	oldKey   world.BtcKey
+	prevKey  *world.BtcKey // the key that was current before the last rotation
 	nt       bool
 }
 
@@ -442,7 +443,17 @@ func (w *wdWorld) buildTx(t *WdTx, rv world.RelayerView, view map[uint64]*wdView
 			outs = append(outs, wire.NewTxOut(int64(value), script))
 			values = append(values, value)
 		}
-		switch t.Extra % 4 {
+		switch t.Extra % 5 {
+		case 4:
+			// change to the key that was current before the last rotation (the genesis old key if there was none)
+			k := w.oldKey
+			if w.prevKey != nil {
+				k = *w.prevKey
+				o.Classes = append(o.Classes, "change-to-rotated-out-key")
+				w.nt = true
+			}
+			outs = append(outs, wire.NewTxOut(4000, world.SystemScript(k)))
+			ok = false
 		case 1:
 			outs = append(outs, wire.NewTxOut(4000, world.SystemScript(f.btcKey)))
 		case 2:
@@ -526,6 +537,18 @@ func (w *wdWorld) buildTx(t *WdTx, rv world.RelayerView, view map[uint64]*wdView
 					m.rTxid, m.rAmount = txid, values[i]
 				}
 			}
+		})
+	case "rotate":
+		// a quorum-voted new relayer key: change outputs must pay the new key from now on
+		body := f.bodyPubkey()
+		msg, err := f.honestMsg(body, rv)
+		if err != nil {
+			return failf("fixture", "vote-build-failed", "%v", err)
+		}
+		return addTx(msg, true, func() {
+			old := f.btcKey
+			w.prevKey = &old
+			f.consume(body)
 		})
 	case "approve":
 		var pool, fit []uint64
@@ -737,7 +760,7 @@ func genWdCase(t *rapid.T) WdCase {
 			b.Cancels = append(b.Cancels, WdRef{Ref: rapid.IntRange(0, 40).Draw(t, "cancelRef")})
 		}
 		if rapid.IntRange(0, 4).Draw(t, "txRoll") > 0 {
-			tx := &WdTx{Kind: rapid.SampledFrom([]string{"process", "process", "replace", "finalize", "finalize", "approve"}).Draw(t, "kind"),
+			tx := &WdTx{Kind: rapid.SampledFrom([]string{"process", "process", "process", "replace", "replace", "finalize", "finalize", "finalize", "approve", "approve", "rotate"}).Draw(t, "kind"),
 				PidRef: rapid.IntRange(0, 10).Draw(t, "pidRef")}
 			nrefs := rapid.SampledFrom([]int{1, 1, 2, 3, 5}).Draw(t, "nrefs")
 			for j := 0; j < nrefs; j++ {
@@ -748,7 +771,7 @@ func genWdCase(t *rapid.T) WdCase {
 				}
 				tx.OutMut = append(tx.OutMut, m)
 			}
-			tx.Extra = rapid.SampledFrom([]int{0, 0, 1, 1, 2, 3}).Draw(t, "extra")
+			tx.Extra = rapid.SampledFrom([]int{0, 0, 1, 1, 1, 2, 3, 4}).Draw(t, "extra")
 			tx.FeeKind = rapid.SampledFrom([]int{0, 0, 0, 1, 2}).Draw(t, "feeKind")
 			tx.FeeDelta = rapid.SampledFrom([]int{1, 1, 5, 0, -1}).Draw(t, "feeDelta")
 			tx.SameTx = rapid.IntRange(0, 9).Draw(t, "sameTx") == 0
@@ -773,6 +796,6 @@ func TestC05_Withdrawals(t *testing.T) {
 	RunProp(t, Prop[WdCase]{
 		ID: "C05", Name: "lifecycle", Quick: 640, Thor: 10_000,
 		Gen: genWdCase, Run: runWdCase,
-		Rule: "histories of 5-40 blocks: execution-layer requests Withdraw (fresh id; P2WPKH/P2WSH/P2TR/P2PKH/P2SH of the configured network, garbage, pay-to-pubkey hex, other-network address; amount; maximum fee rate), fee updates and cancellations over earlier ids, and relayer messages Process (1-5 ids of any status with duplicates; per output right/wrong script, value below/equal/above the request; 0/1/2 extra outputs paying the current key, an old key or a stranger; fee giving a rate below/at/above the tightest maximum), Replace (fee lower/equal/higher, identical transaction), Finalize (original / fee-bumped / foreign txid; block voted / not voted / wrong header; position true / 0 / alias / neighbour / mined as first transaction; proof genuine / flipped / empty) and ApproveCancellation, all with honest votes; reference state machine decides every transaction and every Query/Withdrawal record; per id the paid/refund notices received by the fake execution layer are <= 1 at all times, = 1 after a drain iff terminal, of the right kind and with the finalised candidate's txid/output/amount; non-trivial = some id received >= 2 competing actions, a duplicate id in a batch, or an earlier candidate finalised; evaluations count blocks",
+		Rule: "histories of 5-40 blocks: execution-layer requests Withdraw (fresh id; P2WPKH/P2WSH/P2TR/P2PKH/P2SH of the configured network, garbage, pay-to-pubkey hex, other-network address; amount; maximum fee rate), fee updates and cancellations over earlier ids, and relayer messages Process (1-5 ids of any status with duplicates; per output right/wrong script, value below/equal/above the request; 0/1/2 extra outputs paying the current key, an old key, the key rotated out by an earlier voted NewPubkey of the same history, or a stranger; fee giving a rate below/at/above the tightest maximum), Replace (fee lower/equal/higher, identical transaction), Finalize (original / fee-bumped / foreign txid; block voted / not voted / wrong header; position true / 0 / alias / neighbour / mined as first transaction; proof genuine / flipped / empty) and ApproveCancellation, all with honest votes; reference state machine decides every transaction and every Query/Withdrawal record; per id the paid/refund notices received by the fake execution layer are <= 1 at all times, = 1 after a drain iff terminal, of the right kind and with the finalised candidate's txid/output/amount; non-trivial = some id received >= 2 competing actions, a duplicate id in a batch, or an earlier candidate finalised; evaluations count blocks",
 	})
 }
